@@ -88,61 +88,33 @@ Proof. intros s. repeat split; first
   [ apply is_p2pkh_iff | apply is_p2sh_iff | apply is_p2pk_iff | apply is_witness_program_iff | apply is_v0_p2wpkh_iff
   | apply is_v0_p2wsh_iff | apply is_v1_p2tr_iff | apply is_op_return_iff | apply is_provably_unspendable_iff ]. Qed.
 
-(* is_v1plus_p2witprog as coded accepts a 0..40 byte program ... *)
-Theorem C16_v1plus_as_coded : forall s : bytes, is_v1plus_p2witprog s = true <->
-  exists v prog, 0x51 <= b2n v <= 0x60 /\ lenN prog <= 40 /\ s = v :: n2b (lenN prog) :: prog.
+(* version 1..16 with a 2..40 byte program (holds for every byte string since the repair of finding F14, commit 0a76697:
+   the predicate now has the lower bound 2) *)
+Theorem C16_v1plus : forall s : bytes,
+  is_v1plus_p2witprog s = true <-> exists v prog, 0x51 <= b2n v <= 0x60 /\ 2 <= lenN prog <= 40 /\ s = v :: n2b (lenN prog) :: prog.
 Proof. exact is_v1plus_p2witprog_iff. Qed.
-(* ... so the property's form (2..40) holds exactly outside the class of finding F14 *)
-Theorem C16_v1plus : forall s : bytes, known_F14 s = false ->
-  (is_v1plus_p2witprog s = true <-> exists v prog, 0x51 <= b2n v <= 0x60 /\ 2 <= lenN prog <= 40 /\ s = v :: n2b (lenN prog) :: prog).
-Proof. intros s K. rewrite is_v1plus_p2witprog_iff. split.
-  - intros (v & prog & V & L & E). exists v, prog. split; [exact V|]. split; [|exact E]. split; [|exact L].
-    destruct (N.leb_spec 2 (lenN prog)) as [|Short]; [assumption|]. exfalso.
-    assert (known_F14 s = true); [|congruence]. apply known_F14_iff. exists v, prog. auto.
-  - intros (v & prog & V & [_ L] & E). exists v, prog. auto. Qed.
-Theorem C16_v1plus_refuted : exists s : bytes, is_v1plus_p2witprog s = true /\
-  ~ exists v prog, 0x51 <= b2n v <= 0x60 /\ 2 <= lenN prog <= 40 /\ s = v :: n2b (lenN prog) :: prog.
-Proof. exists [x51; x01; xaa]. split; [reflexivity|]. intros (v & prog & _ & [L _] & E). inversion E; subst. vm_compute in L. apply L. reflexivity. Qed.
 
 (* ---------------------------------------------------------------------------------------------- from_script *)
 (* never panics *)
 Theorem C16_from_script_total : forall s : bytes, exists r, from_script s = Val r.
 Proof. exact from_script_total. Qed.
-(* an address is derived exactly for the templates — outside the F14 class *)
-Theorem C16_from_script : forall s : bytes, known_F14 s = false ->
-  ((exists a, from_script s = Val (Some a)) <-> address_template s).
+(* an address is derived exactly for the templates *)
+Theorem C16_from_script : forall s : bytes, (exists a, from_script s = Val (Some a)) <-> address_template s.
 Proof. exact from_script_some_iff. Qed.
-(* the derived address's output script is the original script (for every s, the F14 class included), and outside the
-   class the payload is one whose text form round-trips *)
+(* the derived address's output script is the original script, and its payload is one whose text form round-trips *)
 Theorem C16_from_script_roundtrip : forall (p : profile) (s : bytes) (a : payload), from_script s = Val (Some a) ->
-  script_pubkey p a = Val s /\ (known_F14 s = false -> payload_wf a = true).
+  script_pubkey p a = Val s /\ payload_wf a = true.
 Proof. intros p s a F. split; [exact (from_script_spk p s a F)|exact (from_script_wf s a F)]. Qed.
-
-(* finding F14: 51 01 aa is given an address although it is no template, and its payload (a 1-byte program) is outside
-   what address text can carry; the class `known_F14` is exactly where this happens *)
-Theorem C16_from_script_refuted : exists (s : bytes) (a : payload),
-  s = [x51; x01; xaa] /\ from_script s = Val (Some a) /\ a = WitnessProgram 1 [xaa] /\ ~ address_template s /\ payload_wf a = false.
-Proof. exists [x51; x01; xaa], (WitnessProgram 1 [xaa]). repeat split.
-  destruct (F14_class_violates [x51; x01; xaa] eq_refl) as (a & _ & _ & NT). exact NT. Qed.
-Theorem C16_F14_class : forall s : bytes, known_F14 s = true ->
-  exists a, from_script s = Val (Some a) /\ payload_wf a = false /\ ~ address_template s.
-Proof. exact F14_class_violates. Qed.
 
 (* "its text form parses back to the same address": relative to the address codec, which is property C06.
    `display`/`parse` stand for Address's Display/FromStr restricted to the payload (network and blinding key fixed);
-   C06_roundtrip is C06's round-trip theorem for well-formed payloads, C06_parsed_shape its statement that the parser
-   only returns well-formed payloads (unblinded addresses: upstream bech32 enforces 2..40). *)
+   C06_roundtrip is C06's round-trip theorem for well-formed payloads. *)
 Section TextForm.
   Variable display : payload -> bytes.
   Variable parse : bytes -> option payload.
   Hypothesis C06_roundtrip : forall a, payload_wf a = true -> parse (display a) = Some a.
-  Theorem C16_from_script_text : forall (s : bytes) (a : payload),
-    known_F14 s = false -> from_script s = Val (Some a) -> parse (display a) = Some a.
-  Proof. intros s a K F. apply C06_roundtrip. exact (from_script_wf s a F K). Qed.
-  Hypothesis C06_parsed_shape : forall t a, parse t = Some a -> payload_wf a = true.
-  Theorem C16_from_script_text_refuted : exists (s : bytes) (a : payload),
-    s = [x51; x01; xaa] /\ from_script s = Val (Some a) /\ parse (display a) <> Some a.
-  Proof. exists [x51; x01; xaa], (WitnessProgram 1 [xaa]). repeat split. intros P. apply C06_parsed_shape in P. discriminate P. Qed.
+  Theorem C16_from_script_text : forall (s : bytes) (a : payload), from_script s = Val (Some a) -> parse (display a) = Some a.
+  Proof. intros s a F. apply C06_roundtrip. exact (from_script_wf s a F). Qed.
 End TextForm.
 
 (* ---------------------------------------------------------------------------------------------- non-vacuity *)
@@ -164,7 +136,9 @@ Proof. repeat split. Qed.
 Example C16_example_templates :
   is_p2sh (xa9 :: x14 :: repeat x33 20 ++ [x87]) = true /\ address_template (xa9 :: x14 :: repeat x33 20 ++ [x87]) /\
   from_script (xa9 :: x14 :: repeat x33 20 ++ [x87]) = Val (Some (ScriptHash (repeat x33 20))) /\
-  known_F14 (xa9 :: x14 :: repeat x33 20 ++ [x87]) = false /\ known_F14 [x51; x01; xaa] = true /\ known_F14 [x60; x00] = true.
+  (* the former F14 witnesses are no longer given an address; the shortest v1+ program is *)
+  from_script [x51; x01; xaa] = Val None /\ from_script [x60; x00] = Val None /\
+  from_script [x51; x02; xaa; xbb] = Val (Some (WitnessProgram 1 [xaa; xbb])).
 Proof. repeat split. right; left. exists (repeat x33 20). split; reflexivity. Qed.
 
 Check (C16_readback : forall (p : profile) (ops : list bop) (s : bytes),
@@ -180,14 +154,14 @@ Check (C16_scriptint : forall (p : profile) (n : Z), (- 2 ^ 31 < n < 2 ^ 31)%Z -
   exists e, build_scriptint p n = Val e /\ read_scriptint e = SOk n).
 Check (C16_scriptint_overflow : forall (p : profile) (n : Z), in_i64 n = true -> (2 ^ 31 <= Z.abs n)%Z ->
   (p = Release \/ n <> i64_min) -> exists e, build_scriptint p n = Val e /\ read_scriptint e = SErr NumericOverflow).
-Check (C16_from_script : forall s : bytes, known_F14 s = false -> ((exists a, from_script s = Val (Some a)) <-> address_template s)).
+Check (C16_v1plus : forall s : bytes,
+  is_v1plus_p2witprog s = true <-> exists v prog, 0x51 <= b2n v <= 0x60 /\ 2 <= lenN prog <= 40 /\ s = v :: n2b (lenN prog) :: prog).
+Check (C16_from_script : forall s : bytes, (exists a, from_script s = Val (Some a)) <-> address_template s).
 Check (C16_from_script_roundtrip : forall (p : profile) (s : bytes) (a : payload), from_script s = Val (Some a) ->
-  script_pubkey p a = Val s /\ (known_F14 s = false -> payload_wf a = true)).
+  script_pubkey p a = Val s /\ payload_wf a = true).
 Check (C16_from_script_text : forall (display : payload -> bytes) (parse : bytes -> option payload),
   (forall a, payload_wf a = true -> parse (display a) = Some a) ->
-  forall (s : bytes) (a : payload), known_F14 s = false -> from_script s = Val (Some a) -> parse (display a) = Some a).
-Check (C16_from_script_refuted : exists (s : bytes) (a : payload),
-  s = [x51; x01; xaa] /\ from_script s = Val (Some a) /\ a = WitnessProgram 1 [xaa] /\ ~ address_template s /\ payload_wf a = false).
+  forall (s : bytes) (a : payload), from_script s = Val (Some a) -> parse (display a) = Some a).
 Print Assumptions C16_readback.
 Print Assumptions C16_build_total.
 Print Assumptions C16_iter_total.
@@ -200,13 +174,8 @@ Print Assumptions C16_scriptint_min.
 Print Assumptions C16_int_reads_back.
 Print Assumptions C16_read_scriptint.
 Print Assumptions C16_templates.
-Print Assumptions C16_v1plus_as_coded.
 Print Assumptions C16_v1plus.
-Print Assumptions C16_v1plus_refuted.
 Print Assumptions C16_from_script_total.
 Print Assumptions C16_from_script.
 Print Assumptions C16_from_script_roundtrip.
-Print Assumptions C16_from_script_refuted.
-Print Assumptions C16_F14_class.
 Print Assumptions C16_from_script_text.
-Print Assumptions C16_from_script_text_refuted.
